@@ -326,7 +326,16 @@ func (c *svcDiscoveryClient) takePending() (subscribed, unsubscribed []string) {
 	c.pending = nil
 	c.Unlock()
 
-	for _, change := range pending {
+	// only the latest change of a service counts, otherwise a service could
+	// show up in both lists and the order of the two changes would be lost.
+	latest := make(map[string]int, len(pending))
+	for i, change := range pending {
+		latest[change.svcName] = i
+	}
+	for i, change := range pending {
+		if latest[change.svcName] != i {
+			continue
+		}
 		if change.subscribe {
 			subscribed = append(subscribed, change.svcName)
 		} else {
